@@ -33,7 +33,10 @@ for v in ('A', 'B', 'C', 'D'):
             if any(b.get('case') for b in f.blocks.values()):
                 pr['F'] = generic.fallthrough_profile(f)
                 pr['P'] = generic.case_partition(f)
-            if pr['R'] or pr['O'] or 'F' in pr:
+            ct = generic.condition_tables(f)
+            if ct:
+                pr['T'] = ct
+            if pr['R'] or pr['O'] or 'F' in pr or ct:
                 prof.setdefault(v, {}).setdefault(f.file, {})[f.name] = pr
             ab = generic.argument_bindings(f, prog)
             if ab:
